@@ -47,6 +47,8 @@ STREAMING = sorted(n for n, o in dsl.OPS.items() if o.streaming and n not in dsl
 def gen_cases(tier, seed):
     for i, opn in enumerate(STREAMING):
         yield {'family': 'single', 'op': opn, 'idx': i, 'seed': seed}
+    for i, fmt in enumerate(['excel', 'xlsx', 'zip_csv', 'zip_json']):
+        yield {'family': 'single', 'op': 'dump_format', 'fmt': fmt, 'idx': 500 + i, 'seed': seed}
     n = {'quick': 40, 'thorough': 600}[tier]
     for i in range(n):
         yield {'family': 'composition', 'op': None, 'idx': 1000 + i, 'seed': seed}
@@ -65,6 +67,9 @@ def row_for(src, i, fields):
             row[fn] = ['a', 'b', 'hello', 'x y'][i % 4]
         elif ft == 'number':
             row[fn] = [1.5, 2.25, -0.5][i % 3]
+        elif ft == 'late':
+            # null throughout the inference sample, values only much later
+            row[fn] = None if i < 700 else 'late-%d' % (i % 3)
     return row
 
 
@@ -83,9 +88,13 @@ def run_case(case):
         fields = [['id', 'integer'], ['n', 'integer'], ['s', 'string'], ['m', 'integer']]
         if rng.random() < 0.5:
             fields.append(['q', 'number'])
+        if rng.random() < 0.4:
+            fields.append(['zlate', 'late'])
         tables.append({'name': 'r%d' % s, 'fields': fields, 'rows': [row_for(s, 0, fields)],
                        'kind': rng.choice(['iter', 'load'])})
-    if case['family'] == 'single':
+    if case['family'] == 'single' and case['op'] == 'dump_format':
+        ops, length = ['validate'], 1
+    elif case['family'] == 'single':
         ops = [case['op']]
         length = 1
     else:
@@ -110,8 +119,8 @@ def run_case(case):
                     yield row_for(j, i, t['fields'])
             if t['kind'] == 'iter':
                 return g()
-            desc = {'resources': [{'name': t['name'], 'path': t['name'] + '.csv',
-                                   'schema': {'fields': [{'name': a, 'type': b} for a, b in t['fields']]}}]}
+            desc = {'resources': [{'name': t['name'], 'path': t['name'] + '.csv', 'schema': {'fields': [
+                {'name': a, 'type': b if b != 'late' else 'string'} for a, b in t['fields']]}}]}
             return d.load((desc, [g()]), strip=False)
 
         def sink(package):
@@ -144,6 +153,10 @@ def run_case(case):
                 steps.append(dsl.OPS['user'].build(dict(s, form='function' if s['form'] != 'lambda' else 'lambda'), env))
             else:
                 steps.append(dsl.OPS[s['op']].build(s, env))
+        if case.get('fmt'):
+            f = case['fmt']
+            steps.append(d.dump_to_zip('z_%d.zip' % N, format=f[4:]) if f.startswith('zip_')
+                         else d.dump_to_path('x_%d' % N, format=f))
         steps.append(sink)
         with boot.quiet():
             d.Flow(*steps).process()
@@ -161,6 +174,8 @@ def run_case(case):
 def judge(case, prog, specs, sizes, res, counters, cov, viol):
     slack = 2 * (len(specs) + 1)
     label = case['op'] or ('composition' if case['family'] == 'composition' else 'csv_file')
+    if case.get('fmt'):
+        label = 'dump_' + case['fmt']
     for N, r in zip(sizes, res):
         counters['delivery_events'] += r['deliveries']
         counters['pull_events'] += r['pulled']
